@@ -20,6 +20,7 @@ META = {
     "assumptions": ["safe Rust generic code is parametric (no specialization feature; checked: crate uses none)"],
     "not_decided": ["equality of results across faithful views where T: PartialEq decides (D-04b)"],
 }
+META["explanation"] += ' R6 from the exported entry points down only get/as_*/null/extension_custom are called on the trait (never a defaulted hook such as reference()), and nothing sorts, reverses or de-duplicates what as_array()/as_object() answer.'
 
 QT = "crate::query::queryable::Queryable"
 
